@@ -535,7 +535,7 @@ func runC06(tb report.TB, rep *report.Reporter, c c06Case) {
 		_ = c06Scenario(c, fr, w.AuthorIds, shared, 0, func() { stepsDone++ }) // dies at mutation k
 		_ = repo.Close()
 		// the lock file of the dead process names our own (live) pid: a dead process would not be running
-		_ = os.Remove(filepath.Join(work, ".git", "git-bug", "lock"))
+		DeadenLock(work)
 
 		kc := c
 		kc.OnlyK = k
@@ -588,7 +588,7 @@ func runC06(tb report.TB, rep *report.Reporter, c c06Case) {
 				}
 			}
 			_ = re.Close()
-			_ = os.Remove(filepath.Join(work, ".git", "git-bug", "lock"))
+			DeadenLock(work)
 			re = open()
 			st2 := captureState(re, known)
 			if sig, detail := judge(st2, true); sig != "" {
